@@ -111,7 +111,14 @@ def overlay(dst, cfg, extra_files=None):
             shutil.copy(os.path.join(lib_src, fn), os.path.join(dst, "src", fn))
             added.append("src/" + fn)
     with open(os.path.join(dst, "src", "lib.rs"), "a") as f:
-        f.write("\n#[cfg(kani)]\n#[allow(dead_code, unused_imports, unused_variables)]\nmod vklib;\n")
+        f.write("\n#[cfg(kani)]\n#[allow(dead_code, unused_imports, unused_variables)]\npub(crate) mod vklib;\n")
+    for gen, rel in cfg.get("pregen", []):
+        tgt = os.path.join(dst, rel)
+        os.makedirs(os.path.dirname(tgt), exist_ok=True)
+        rc, o = sh([sys.executable, os.path.join(VERIF, "gen", gen), tgt])
+        if rc != 0:
+            raise RuntimeError("generator %s failed: %s" % (gen, o))
+        added.append(rel)
     for module, fname in PROPS.COMMON_OVERLAYS + [o for o in cfg["overlays"] if o not in PROPS.COMMON_OVERLAYS]:
         src = os.path.join(VERIF, "harness", module, fname)
         if extra_files and (module, fname) in extra_files:
@@ -126,7 +133,7 @@ def overlay(dst, cfg, extra_files=None):
         os.makedirs(tgt_dir, exist_ok=True)
         shutil.copy(src, os.path.join(tgt_dir, fname))
         with open(host, "a") as f:
-            f.write("\n#[cfg(kani)]\n#[allow(dead_code, unused_imports, unused_variables, unused_mut)]\nmod %s;\n" % modname)
+            f.write("\n#[cfg(kani)]\n#[allow(dead_code, unused_imports, unused_variables, unused_mut)]\npub(crate) mod %s;\n" % modname)
         added.append(os.path.relpath(os.path.join(tgt_dir, fname), dst))
     return added
 
@@ -190,15 +197,45 @@ def run_harness(h, opts):
             res["detail"] = "pipeline step failed: %s\n%s" % (" ".join(st[:3]), o[-2000:])
             res["wall_s"] = time.time() - t0
             return res
-    if opts.get("list_functions"):
-        rc, o = sh(["goto-instrument", "--list-goto-functions", out], timeout=120)
-        res["functions"] = sorted(set(demangle_asefile(o)))
+    listing = ""
+    if opts.get("list_functions") or opts.get("recursion"):
+        rc, listing = sh(["goto-instrument", "--list-goto-functions", out], timeout=120)
+        res["functions"] = sorted(set(demangle_asefile(listing)))
+    unwindset = []
+    for rx, n in (opts.get("recursion") or {}).items():
+        # bound for a recursive function (unwinding assertions stay on): label = mangled function name
+        for line in listing.splitlines():
+            mm = re.match(r"^(.*?) /\* (_R\S+?)(, body not available)? \*/\s*$", line.strip())
+            if mm and not mm.group(3) and re.fullmatch(rx, mm.group(1)):
+                unwindset.append("%s:%d" % (mm.group(2), n))
     cmd = ["cbmc"] + CBMC_FLAGS
     unwind = opts.get("unwind") or res["unwind"]
     if unwind:
         cmd += ["--unwind", str(unwind)]
     for p in opts.get("property", []):
         cmd += ["--property", p]
+    if opts.get("only_desc"):
+        # restrict the run to the harness's own assertions whose description matches, plus all covers
+        rc, o = sh(["cbmc", "--show-properties", "--json-ui"] + (["--unwind", str(unwind)] if unwind else []) + [out], timeout=600)
+        sel = []
+        try:
+            for m in json.loads(o[o.index("["):]):
+                for pr in (m.get("properties") or []) if isinstance(m, dict) else []:
+                    if prop_class(pr.get("name", "")) in ("cover", "unwind") or \
+                            re.search(opts["only_desc"], pr.get("description", "")):
+                        sel.append(pr["name"])
+        except Exception as e:
+            res["detail"] = "could not list properties: %s %s" % (e, o[-500:])
+            return res
+        if not any(prop_class(x) != "cover" for x in sel):
+            res["detail"] = "only_desc %r matched no property" % opts["only_desc"]
+            return res
+        res["restricted_to"] = opts["only_desc"]
+        for x in sel:
+            cmd += ["--property", x]
+    if unwindset:
+        cmd += ["--unwindset", ",".join(unwindset)]
+        res["unwindset"] = unwindset
     cmd += opts.get("cbmc_extra", [])
     cmd += [out, "--verbosity", "9", "--json-ui"]
     res["cbmc_cmd"] = " ".join(cmd)
@@ -261,10 +298,15 @@ def run_harness(h, opts):
                 res["unsupported_failed"].append(ent)
             else:
                 res["failed"].append(ent)
+        elif st == "ERROR":
+            res["solver_error"] = res.get("solver_error", 0) + 1
         elif st not in ("SUCCESS",):
             res["unsupported_failed"].append(dict(ent, description="status=%s %s" % (st, ent["description"])))
     res["solver_s"] = round(res["solver_s"], 2)
-    if res["failed"]:
+    if res.get("solver_error"):
+        res["status"] = "oom"
+        res["detail"] += "CBMC reported status ERROR for %d properties (solver ran out of memory under the ulimit?)" % res["solver_error"]
+    elif res["failed"]:
         res["status"] = "failed"
     elif res["unwind_failed"]:
         res["status"] = "unwind"
@@ -386,19 +428,30 @@ def select_harnesses(meta, cfg, tier, seed, only):
     hs = []
     pref = cfg["prefix"]
     rot = rotated(cfg, tier, seed)
+    extra = extra_names(cfg, tier)
     for h in meta["proof_harnesses"]:
         nm = h["pretty_name"].split("::")[-1]
-        if not nm.startswith(pref):
+        if not nm.startswith(pref) and nm not in extra:
             continue
         if only:
             if re.search(only, nm):
                 hs.append(h)
             continue
-        if nm.startswith(pref + "q_") or nm in rot:
+        if nm in extra:
+            hs.append(h)
+        elif not nm.startswith(pref):
+            continue
+        elif nm.startswith(pref + "q_") or nm in rot:
             hs.append(h)
         elif nm.startswith(pref + "t_") and tier == "thorough":
             hs.append(h)
     return hs
+
+
+def extra_names(cfg, tier):
+    """Harnesses borrowed from another property's harness file (exact names), per tier."""
+    e = cfg.get("extra_harnesses", {})
+    return list(e.get("quick", [])) + (list(e.get("thorough", [])) if tier == "thorough" else [])
 
 
 def rotated(cfg, tier, seed):
@@ -410,7 +463,7 @@ def rotated(cfg, tier, seed):
 
 
 def harness_opts(cfg, name, tier):
-    o = dict(timeout=cfg.get("timeout_%s" % tier, 900 if tier == "quick" else 3600), mem_gb=cfg.get("mem_gb", 8))
+    o = dict(timeout=cfg.get("timeout_%s" % tier, 900 if tier == "quick" else 3600), mem_gb=cfg.get("mem_gb", 5))
     for rx, d in cfg.get("per_harness", {}).items():
         if re.fullmatch(rx, name):
             o.update(d)
@@ -420,8 +473,8 @@ def harness_opts(cfg, name, tier):
 def names_for_tier(cfg, tier, seed):
     """Harness name filters passed to the compiler so that only this tier is code-generated."""
     if tier == "thorough":
-        return [cfg["prefix"]]
-    return [cfg["prefix"] + "q_"] + rotated(cfg, tier, seed)
+        return [cfg["prefix"]] + extra_names(cfg, tier)
+    return [cfg["prefix"] + "q_"] + rotated(cfg, tier, seed) + extra_names(cfg, tier)
 
 
 def do_check(pid, tier, seed, only=None, keep=False, jobs=None, no_replay=False):
@@ -435,7 +488,7 @@ def do_check(pid, tier, seed, only=None, keep=False, jobs=None, no_replay=False)
     try:
         dst = snapshot_repo(scratch)
         added = overlay(dst, cfg)
-        filt = names_for_tier(cfg, tier, seed) if not only else [cfg["prefix"]]
+        filt = names_for_tier(cfg, tier, seed) if not only else [cfg["prefix"]] + extra_names(cfg, "thorough")
         meta, bout, bdt = kani_build(dst, cfg, filt)
         if meta is None:
             msg = "\n".join([l for l in bout.splitlines() if "error" in l.lower()][:20]) or bout[-2000:]
@@ -449,7 +502,7 @@ def do_check(pid, tier, seed, only=None, keep=False, jobs=None, no_replay=False)
         if not hs:
             print("INCONCLUSIVE property=%s no harness selected" % pid)
             return 2
-        jobs = jobs or cfg.get("jobs_%s" % tier) or min(14, len(hs))
+        jobs = jobs or cfg.get("jobs_%s" % tier) or min(10, len(hs))
         results = []
         first = True
         with cf.ThreadPoolExecutor(max_workers=jobs) as ex:
